@@ -179,7 +179,9 @@ func (d *Directory) AddTimeBucket(tbk *io.TimeBucketKey, f *io.TimeBucketInfo) (
 	// An empty item, "." or ".." (or an item with a path separator) would address
 	// a directory other than a child of the previous level - possibly outside the root.
 	for _, item := range datakeySplit {
-		if item == "" || item == "." || item == ".." || strings.ContainsRune(item, os.PathSeparator) {
+		// "metadata.db" is the one directory name that load() skips when it scans the data directory
+		if item == "" || item == "." || item == ".." || item == "metadata.db" ||
+			strings.ContainsRune(item, os.PathSeparator) {
 			return fmt.Errorf("invalid item %q in time bucket key", item)
 		}
 	}
